@@ -219,9 +219,9 @@ class SyncIter(Iterable):
             try:
                 while True:
                     x = q.get()
-                    if x == finished:
+                    if x is finished:
                         break
-                    if x == stopped:
+                    if x is stopped:
                         raise q.get()
                     yield x
             finally:
@@ -246,7 +246,7 @@ class AsyncIter(AsyncIterable):
                 x = await loop.run_in_executor(None, next, instream, finished)
                 # `FINISHED` is returned if there's no more elements.
                 # See https://stackoverflow.com/a/61774972
-                if x == finished:  # `instream_` exhausted
+                if x is finished:  # `instream_` exhausted
                     break
                 yield x
 
@@ -484,9 +484,9 @@ class AsyncBuffer(AsyncIterable):
                     await asyncio.sleep(0.002)
                     # TODO: how to avoid this sleep?
                     continue
-                if z == finished:
+                if z is finished:
                     break
-                if z == stopped:
+                if z is stopped:
                     raise tasks.get()
                 yield z
         finally:
